@@ -290,7 +290,8 @@ def search(ctx, broken):
         real = ctrl.execute(case)
         if real.get("error"):
             return None
-        for what, obs, exp in ctrl.monitor_trackers(case, real):
+        mon = ctrl.monitor_exact if case.get("stepper") == "exact" else ctrl.monitor_trackers
+        for what, obs, exp in mon(case, real):
             found.append({"leg": "trackers", "case": case, "observed": obs, "expected": exp, "what": what,
                           "key": {"what": what.split(" of ")[0][:60]}})
             return real
